@@ -47,7 +47,10 @@ func applyLayout(n *zoo.FNode, layout, idx int) {
 	case 8:
 		if idx%2 == 0 {
 			// the key is an object of its own, first met as the key (the map is numbered before it)
-			n.KM = map[*zoo.Inner]int32{{A: int32(idx), S: "fresh key"}: int32(idx)}
+			// and referred to again behind the map
+			key := &zoo.Inner{A: int32(idx), S: "fresh key"}
+			n.KM = map[*zoo.Inner]int32{key: int32(idx)}
+			n.IP = []*zoo.Inner{key}
 		} else {
 			n.FP = &zoo.Inner{A: int32(idx), S: "key"}
 			n.KM = map[*zoo.Inner]int32{n.FP: int32(idx)}
